@@ -139,7 +139,13 @@ simple!(SimSleep, |_context, args| {
 // simres TAG: sample resource counters inside the shell.
 simple!(SimRes, |context, args| {
     let tag = args.first().cloned().unwrap_or_default();
-    world::yield_point(world::OP_PROBE, 1, 0);
+    // sample at quiescence: every other participant has finished (a participant that can
+    // never finish shows up as a deadlock, i.e. as a leaked task)
+    if context.shell.depth() == 0 {
+        world::wait_all_quiet();
+    } else {
+        world::yield_point(world::OP_PROBE, 1, 0);
+    }
     let r = crate::runner::sample_resources(context.shell);
     let status = context.shell.last_exit_status();
     world::probe_event(
